@@ -23,11 +23,12 @@ def metaDefect : String → R MetaDefect
   | "badVersion" => pure .badVersion | "methodMismatch" => pure .methodMismatch | "protocolVersion" => pure .protocolVersion
   | s => throw s!"metadata defect {s}"
 
-/-- body: "valid" | "badParams" | "cancel" | "parseFail:<exc>" | "badMeta:<defect>" -/
+/-- body: "valid" | "cancel" | "parseFail:<exc>" | "badMeta:<defect>" | "badParams:mismatch" | "badParams:badNames" -/
 def body (s : String) : R Body :=
   match s.splitOn ":" with
   | ["valid"] => pure .valid
-  | ["badParams"] => pure .badParams
+  | ["badParams", "mismatch"] => pure (.badParams .mismatch)
+  | ["badParams", "badNames"] => pure (.badParams .badNames)
   | ["cancel"] => pure .cancel
   | ["parseFail", e] => do pure (.parseFail (← parseExc e))
   | ["badMeta", m] => do pure (.badMeta (← metaDefect m))
